@@ -64,7 +64,7 @@ unsigned long rejected() { return g_rejected; }
 
 } // namespace tsanglue
 
-extern "C" void __tsan_on_report(void *report) {
+static void capture_report(void *report) {
 	using namespace tsanglue;
 	++g_seen;
 	const char *desc = nullptr; int cnt = 0, stacks = 0, mops = 0, locs = 0, mutexes = 0, threads = 0, utids = 0; void *sleep[1];
@@ -129,6 +129,16 @@ extern "C" void __tsan_on_report(void *report) {
 	g_nrec = n + 1;
 }
 
+// Overrides the runtime's weak hook (it runs before the report is printed): the report is taken structurally here and
+// the textual report is suppressed (RXSIM_TSAN_PRINT=1 keeps it, for inspecting a replay by hand).
+namespace __tsan {
+struct ReportDesc;
+bool OnReport(const ReportDesc *rep, bool) {
+	capture_report((void *)rep);
+	return getenv("RXSIM_TSAN_PRINT") == nullptr;
+}
+}
+
 extern "C" const char *__tsan_default_options() {
-	return "history_size=7:report_thread_leaks=0:suppress_equal_stacks=0:suppress_equal_addresses=0:exitcode=0:halt_on_error=0:report_signal_unsafe=0:detect_deadlocks=0:handle_segv=0:handle_sigbus=0:handle_sigfpe=0:handle_sigill=0:handle_abort=0";
+	return "symbolize=0:history_size=7:report_thread_leaks=0:suppress_equal_stacks=0:suppress_equal_addresses=0:exitcode=0:halt_on_error=0:report_signal_unsafe=0:detect_deadlocks=0:handle_segv=0:handle_sigbus=0:handle_sigfpe=0:handle_sigill=0:handle_abort=0";
 }
